@@ -25,7 +25,7 @@ ASSUMPTIONS = [
 BOUNDS = {"quick": "14 instances, lengths with p > 1e-4 (at most 14 per block), all rooted writings for molecules up to 16 atoms", "thorough": "40 instances, p > 1e-6"}
 CASE_TIMEOUT = {"quick": 1500, "thorough": 6000}
 
-UNIT = {"CC": ("[<]CC[>]", "CC"), "CO": ("[<]CO[>]", "CO"), "CS": ("[<]CS[>]", "CS")}
+UNIT = {"CC": ("[<]CC[>]", "CC"), "CO": ("[<]CO[>]", "CO"), "CS": ("[<]CS[>]", "CS"), "CCl": ("[<]C(Cl)C[>]", "C(Cl)C"), "CN": ("[<]C(N)C[>]", "C(N)C")}
 
 
 def instances(tier):
@@ -47,6 +47,13 @@ def instances(tier):
     out.append({"start": ("prefix", "N"), "blocks": [("CC", "gauss", (50.0, 15.0)), ("CO", "poisson", (50.0,))], "suffix": "F"})
     out.append({"start": ("prefix", "N"), "blocks": [("CC", "uniform", (20, 60)), ("CO", "uniform", (20, 60)), ("CS", "uniform", (30, 80))], "suffix": "F"})
     out.append({"start": ("prefix", "N"), "blocks": [("CC", "uniform", (20, 120))], "suffix": "Cl", "connector": None})
+    # consecutive blocks built from the SAME repeat unit: one molecule has several splits between the blocks
+    out.append({"start": ("prefix", "N"), "blocks": [("CC", "uniform", (20, 90)), ("CC", "uniform", (20, 90))], "suffix": "F"})
+    out.append({"start": ("prefix", "CC"), "blocks": [("CN", "uniform", (60, 220)), ("CN", "flory_schulz", (0.02,))], "suffix": "[Si]"})
+    # integer-valued laws with unit masses whose cumulative values have fractional parts below and above one half
+    out.append({"start": ("prefix", "N"), "blocks": [("CCl", "flory_schulz", (0.01,))], "suffix": "F"})
+    out.append({"start": ("prefix", "N"), "blocks": [("CCl", "poisson", (200.0,))], "suffix": "F"})
+    out.append({"start": ("prefix", "N"), "blocks": [("CCl", "schulz_zimm", (300.0, 200.0))], "suffix": "F"})
     if tier == "thorough":
         out.append({"start": ("prefix", "N"), "blocks": [("CC", "log_normal", (60.0, 1.2)), ("CO", "flory_schulz", (0.05,))], "suffix": "F"})
         out.append({"start": ("end", [("N", 1.0), ("F", 2.0)]), "blocks": [("CC", "uniform", (20, 90)), ("CO", "uniform", (20, 90))], "suffix": None})
@@ -153,8 +160,8 @@ def eval_case(kind, data):
     missing = 0.0
     for (u, fam, par), m in zip(inst["blocks"], masses):
         pb, rest = block_probs(fam, par, m, cut)
-        pb = {n: p for n, p in pb.items() if n <= maxlen}
         per_block.append(pb)
+    same_units = len({u for (u, f_, p_) in inst["blocks"]}) < len(inst["blocks"])
     from .. import refsem as R
 
     kind_, val = inst["start"]
@@ -182,9 +189,12 @@ def eval_case(kind, data):
     nq = 0
     flagged = 0
     fams = "+".join(f for (u, f, p) in inst["blocks"])
+    # the reference sums over ALL splits of a molecule between blocks (no length cap); only molecules up to the tier's size are queried
     for smi in sorted(ref, key=lambda x: (len(x), x)):
         pref = ref[smi]
         lengths = info[smi]
+        if sum(lengths) > maxlen or pref < cut * 0.1:
+            continue
         m = Chem.MolFromSmiles(smi)
         if m is None:
             continue
